@@ -46,6 +46,11 @@ def gen_case(ctx, stream, idx):
         ir = irgen.rand_ir(r, nparams=r.randint(1, 4), type_kinds=("int", "float", "str", "bool"), default_kinds=("absent",),
                            doc_kinds=("plain",), with_return=False)
         for p in ir["params"].values():
+            if r.random() < 0.3:
+                # the Keras/TF convention: the description itself says the parameter is optional
+                p["doc"] = r.choice(("Optional %s", "(Optional) %s", "Optional, %s")) % p["doc"]
+                p["typ"] = r.choice((p["typ"], "Optional[%s]" % p["typ"]))
+                continue
             if r.random() < 0.7:
                 v = {"int": r.choice(("32", "7", "-4")), "float": r.choice(("0.5", "2.0")), "str": r.choice(("mnist", "a_b")),
                      "bool": r.choice(("True", "False"))}[p["typ"]]
